@@ -182,9 +182,14 @@ def work_rt(task: tuple) -> dict:
         res['failing'] = sorted(failing)
         return res
     if kind == 'rt2':
-        _, n, i, excluded, both, seed = task
+        _, n, i, excluded, both, seed, first_tag = task
         P = L.placed_ops(n, rt_keys(tuple(excluded)))
-        first = P[i]
+        if first_tag == 'reduced':
+            first = L.placed_ops(
+                n, [k for k in REDUCED_RT if k not in excluded],
+            )[i]
+        else:
+            first = P[i]
         for second in P:
             for ops in seq_param_variants([first, second], seed, both):
                 judge_rt(res, n, ops)
@@ -613,9 +618,12 @@ def work_prog(task: tuple) -> dict:
         _expr_batch(res, trees)
         return res
     if kind == 'e2':
-        _, leaves, ai, op, chunk, nch = task
+        _, leaves, ai, op, chunk, nch, core = task
         res = new_result('expressions')
-        trees = L.depth2_for_left(list(leaves), ai, (op,))[chunk::nch]
+        trees = L.depth2_for_left(list(leaves), ai, (op,))
+        if core is not None:
+            trees = [t for t in trees if L.in_quick_core(t, core)]
+        trees = trees[chunk::nch]
         _expr_batch(res, trees)
         if ai == len(leaves) + 40 and op == '*' and chunk == 0 and trees:
             res['samples'].append({
